@@ -88,8 +88,11 @@ def gen_rows(rnd, n_mut, n_samp):
     return rows
 
 
-def variant(hashseed="0", cpus=None, start=None, finish=None, sleep=None, max_time=None):
-    return {"hashseed": hashseed, "cpus": cpus, "start": start, "finish": finish, "sleep": sleep, "max_time": max_time}
+def variant(hashseed="0", cpus=None, start=None, finish=None, sleep=None, max_time=None, oneworker=None):
+    v = {"hashseed": hashseed, "cpus": cpus, "start": start, "finish": finish, "sleep": sleep, "max_time": max_time}
+    if oneworker:
+        v["oneworker"] = oneworker  # every pool worker but the first sleeps this long at start-up: one worker runs all chains
+    return v
 
 
 def perm_not_identity(rnd, k):
@@ -152,7 +155,7 @@ def cases(tier, rnd):
     hs = lambda: rnd.choice(["1", "random", str(rnd.randrange(2, 2 ** 32 - 1))])
     if tier == "quick":
         out.append(run_case(rnd, 1, [variant("0"), variant("random", cpus=1), variant(hs(), max_time=0.001)]))
-        out.append(run_case(rnd, 2, [variant("0", finish=[0, 1]), variant(hs(), start=[1, 0], finish=[1, 0])]))
+        out.append(run_case(rnd, 2, [variant("0", finish=[0, 1]), variant(hs(), start=[1, 0], finish=[1, 0]), variant(hs(), oneworker=25)]))
         out.append(run_case(rnd, 3, [variant("0"), variant(hs(), cpus=2, finish=perm_not_identity(rnd, 3), sleep={"0": [0.5, 0]})]))
         out.append(cluster_case(rnd, 1, [variant("0"), variant("1"), variant("2"), variant("3"), variant("4")], tied=True))
         return out + tail
@@ -172,6 +175,8 @@ def cases(tier, rnd):
                               sleep={str(rnd.randrange(k)): [rnd.choice([0.3, 1.0]), rnd.choice([0, 0.5])]}))
             if i % 2:
                 vs.append(variant(hs(), max_time=rnd.choice([0.001, 2.0]), finish=perm_not_identity(rnd, k)))
+            else:
+                vs.append(variant(hs(), oneworker=45))
         over = {}
         if i % 3 == 0:
             over["subtree_update_prob"] = 0.4
@@ -232,7 +237,7 @@ def run_variant(work, idx, case, v, in_file, result):
     env = child_env(INJECT)
     env["PYTHONHASHSEED"] = v["hashseed"]
     spec = {"dir": vdir, "timeout": 45, "start": v["start"], "finish": v["finish"], "sleep": v["sleep"],
-            "cpus": pick_cpus(v["cpus"], o["seed"] + idx) if v["cpus"] else None}
+            "cpus": pick_cpus(v["cpus"], o["seed"] + idx) if v["cpus"] else None, "oneworker": v.get("oneworker")}
     env["PHYCLONE_VERIF_C18"] = json.dumps(spec)
     cmd = [sys.executable, "-c", "import sys; from phyclone.cli import main; sys.exit(main())"] + cli_args(o, in_file, out_file, v["max_time"], cluster_file(in_file))
     t0 = time.time()
@@ -306,7 +311,7 @@ def marker_order(r, prefix):
 
 
 def describe(v):
-    return {k: v[k] for k in ("hashseed", "cpus", "start", "finish", "sleep", "max_time") if v.get(k) is not None}
+    return {k: v[k] for k in ("hashseed", "cpus", "start", "finish", "sleep", "max_time", "oneworker") if v.get(k) is not None}
 
 
 def check(ctx, case):
@@ -381,6 +386,8 @@ def check_run(ctx, case):
                     ctx.stat(f"forced_{nm}_order_achieved" if want == got else f"forced_{nm}_order_missed")
             pids = {m["pid"] for nm, m in r["marks"].items() if nm.startswith("start_")}
             ctx.stat("worker_processes_distinct" if len(pids) == k else "worker_processes_shared")
+            if v.get("oneworker"):
+                ctx.stat("one_worker_ran_all_chains" if len(pids) == 1 else "one_worker_schedule_missed")
         # --- direct oracle (a): one entry per chain, stored under the number it carries
         keys = [e[0] for e in r["results"]]
         if sorted(keys) != list(range(k)):
